@@ -150,8 +150,7 @@ def content_stable(c):
     v = z3.Const("v!cs", z3.ArraySort(TStr.sort(), z3.IntSort()))
     k = kq("k!cs")
     h0, h1 = c.old_sym("arr", ValS), c.new_sym("arr", ValS)
-    return z3.ForAll([m, v], z3.Implies(z3.ForAll([k], z3.Implies(m[k], z3.And(v[k] > 0, v[k] <= c.old_ctr))), contf(m, v, h1) == contf(m, v, h0)),
-                     patterns=[contf(m, v, h1)])
+    return z3.ForAll([m, v], z3.Implies(z3.ForAll([k], z3.Implies(m[k], z3.And(v[k] > 0, v[k] <= c.old_ctr))), contf(m, v, h1) == contf(m, v, h0)))
 
 
 def preserved(c):
@@ -275,6 +274,9 @@ class _InitializeEntry(_Storage):
     @property
     def modifies(self):
         return ("self." + self.field, "heap:arr")
+
+    def requires(self, c):
+        return list(AXIOMS)
 
     def ensures(self, c):
         v1 = self.v(c, "new")
